@@ -693,7 +693,7 @@ func c14TxnRules(c *eng.Ctx, h *c14Handler, acc []c14Access) {
 func c14ParamName(f *ssa.Function, typ string) string {
 	for _, p := range f.Params {
 		if c14TypeName(p.Type()) == typ {
-			return p.Name()
+			return eng.VarName(p)
 		}
 	}
 	return "?"
@@ -1102,7 +1102,7 @@ func c14CasRules(c *eng.Ctx) {
 		c.Unresolved("kv.validateCheckAndSetOption(data, config, meta)")
 		return
 	}
-	pConfig, pMeta := regexp.QuoteMeta(f.Params[1].Name()), regexp.QuoteMeta(f.Params[2].Name())
+	pConfig, pMeta := regexp.QuoteMeta(eng.VarName(f.Params[1])), regexp.QuoteMeta(eng.VarName(f.Params[2]))
 	const present = `\["cas"\]#1\}?$`
 	eq := eng.G(f, `^\w+ == `+pMeta+`\.CurrentVersion$`, true)
 	c.Cut(f, "return nil (cas supplied)", nilRets, eq, map[string]bool{present: true})
@@ -1121,7 +1121,7 @@ func c14CasRules(c *eng.Ctx) {
 		}
 		nc := eng.Normalize(ifi.Cond)
 		bo, ok := nc.Val.(*ssa.BinOp)
-		if !ok || !strings.HasSuffix(nc.Base, "== "+f.Params[2].Name()+".CurrentVersion") {
+		if !ok || !strings.HasSuffix(nc.Base, "== "+eng.VarName(f.Params[2])+".CurrentVersion") {
 			continue
 		}
 		found = true
@@ -1176,7 +1176,7 @@ func c14AddVersionRules(c *eng.Ctx) {
 		for _, r := range eng.Returns(f) {
 			rets = append(rets, r)
 		}
-		recv := regexp.QuoteMeta(f.Params[0].Name())
+		recv := regexp.QuoteMeta(eng.VarName(f.Params[0]))
 		bumps := eng.Stores(f, `^`+recv+`\.CurrentVersion$`)
 		site := "const{CurrentVersion = CurrentVersion + 1, exactly once, on every path}"
 		switch {
@@ -1203,7 +1203,7 @@ func c14AddVersionRules(c *eng.Ctx) {
 		var mus []*ssa.MapUpdate
 		for _, b := range f.Blocks {
 			for _, in := range b.Instrs {
-				if mu, ok := in.(*ssa.MapUpdate); ok && eng.Expr(mu.Map) == f.Params[0].Name()+".Versions" {
+				if mu, ok := in.(*ssa.MapUpdate); ok && eng.Expr(mu.Map) == eng.VarName(f.Params[0])+".Versions" {
 					mus = append(mus, mu)
 				}
 			}
@@ -1352,7 +1352,7 @@ func c14CleanupRules(c *eng.Ctx) {
 	}
 	for _, g := range gvk {
 		a := g.Common().Args
-		c.Prov(f, "key whose versions are pruned", g, a[2], `^param:`+regexp.QuoteMeta(f.Params[3].Name())+`$`)
+		c.Prov(f, "key whose versions are pruned", g, a[2], `^param:`+regexp.QuoteMeta(eng.VarName(f.Params[3]))+`$`)
 		s := eng.ExprDeep(a[3])
 		// the loop variable starts at versionToDelete and only decreases
 		ok := false
@@ -1396,7 +1396,7 @@ func c14CleanupRules(c *eng.Ctx) {
 		} else {
 			c.Violation(f, "prov{storage keys deleted = collected getVersionKey results}", d.Pos(), "pruning deletes "+eng.ExprDeep(k)+", which is not (only) a version key derived by getVersionKey for this secret", nil)
 		}
-		c.Prov(f, "storage pruned", d, d.Common().Value, `^param:`+regexp.QuoteMeta(f.Params[2].Name())+`$`)
+		c.Prov(f, "storage pruned", d, d.Common().Value, `^param:`+regexp.QuoteMeta(eng.VarName(f.Params[2]))+`$`)
 	}
 	c.Clause("R1", "C14.2")
 	c.CallerTable("kv.(*versionedKVBackend).cleanupOldVersions", c.P.FindCalls(mustStatic(c, "kv.(*versionedKVBackend).cleanupOldVersions"), nil), map[string]string{
@@ -1671,7 +1671,7 @@ func c14MetadataPatchRules(c *eng.Ctx) {
 			for _, in := range b.Instrs {
 				if mu, ok := in.(*ssa.MapUpdate); ok {
 					n++
-					if s := eng.ExprDeep(mu.Key); len(g.FreeVars) == 1 && strings.HasPrefix(s, "^"+g.FreeVars[0].Name()+"[") {
+					if s := eng.ExprDeep(mu.Key); len(g.FreeVars) == 1 && strings.HasPrefix(s, "^"+eng.VarName(g.FreeVars[0])+"[") {
 						c.OK(g, "prov{key copied into the patch = element of the patchable list}", mu.Pos(), s)
 					} else {
 						c.Violation(g, "prov{key copied into the patch = element of the patchable list}", mu.Pos(), "the preprocessor copies key "+s+" from the request into the patch", nil)
